@@ -1489,31 +1489,34 @@ void DOMLSSerializerImpl::procCdataSection(const XMLCh*   const nodeValue
     ArrayJanitor<XMLCh>  jName(repNodeValue, fMemoryManager);
 
     XMLCh* curPtr  = (XMLCh*) repNodeValue;
-    XMLCh* nextPtr = 0;
-    int    endTagPos = -1;
+    bool   lastPiece = false;
 
-    bool   endTagFound = true;
-
-    while (endTagFound)
+    while (!lastPiece)
     {
-        endTagPos = XMLString::patternMatch(curPtr, gEndCDATA);
-        if (endTagPos != -1)
+        //
+        //  There is always a ']]>' to be found: the one appended above, which
+        //  is the one we have got if it starts where the data ends.
+        //
+        XMLSize_t pieceLen = (XMLSize_t) XMLString::patternMatch(curPtr, gEndCDATA);
+        if (pieceLen == len)
         {
-            nextPtr = curPtr + endTagPos + offset;  // skip the ']]>'
-            *(curPtr + endTagPos) = chNull;         //nullify the first ']'
-            if (XMLSize_t(endTagPos) != len)
-                reportError(nodeToWrite, DOMError::DOM_SEVERITY_WARNING, XMLDOMMsg::Writer_NestedCDATA);
-            len = len - endTagPos - offset;
+            lastPiece = true;
         }
         else
         {
-            endTagFound = false;
+            //
+            //  A ']]>' in the data. End this piece behind the ']]' and let
+            //  the next one start with the '>', i.e. ]]]]><![CDATA[>
+            //
+            pieceLen += 2;
+            reportError(nodeToWrite, DOMError::DOM_SEVERITY_WARNING, XMLDOMMsg::Writer_NestedCDATA);
         }
 
-        /***
-            to check ]]>]]>
-        ***/
-        if (endTagPos == 0)
+        const XMLCh saved = curPtr[pieceLen];
+        curPtr[pieceLen] = chNull;
+
+        // only a section without any data gives an empty piece
+        if (pieceLen == 0)
         {
             TRY_CATCH_THROW
             (
@@ -1525,11 +1528,9 @@ void DOMLSSerializerImpl::procCdataSection(const XMLCh*   const nodeValue
             procUnrepCharInCdataSection(curPtr, nodeToWrite);
         }
 
-        if (endTagFound)
-        {
-            *(nextPtr - offset) = chCloseSquare;   //restore the first ']'
-            curPtr = nextPtr;
-        }
+        curPtr[pieceLen] = saved;
+        curPtr += pieceLen;
+        len    -= pieceLen;
     }
 }
 
